@@ -122,3 +122,37 @@ NOT_APPLICABLE = {
 }
 for _p in ['C01', 'C02', 'C03', 'C04', 'C05', 'C07', 'C08', 'C09', 'C10', 'C11', 'C12', 'C13', 'C14', 'C15', 'C17', 'C18', 'C19']:
     NOT_APPLICABLE.setdefault(_p, NOT_YET)
+
+
+# One-line statement of the clause each later rule decides; appended to the property text for every property the rule serves.
+RULE_CLAUSES = {
+    'USEMOVE': 'no local is read after it was moved from (USEMOVE)',
+    'KEYFIELDS': 'every field the equality of a hash key compares is also hashed, and vice versa (KEYFIELDS)',
+    'ADDRKEY': 'a cache key derived from an object is taken from the object the cached value was computed for (ADDRKEY)',
+    'QUEUEENDS': 'the element read from a work queue is the one that is removed (QUEUEENDS)',
+    'COUNTGUARD': 'a per-rule countdown is decremented once per counted child position and never below what was counted (COUNTGUARD)',
+    'LOADROLE': 'loaders and dumpers put each field of a textual rule into the matching argument role (LOADROLE)',
+    'CLIOPT': 'the command line maps each option value to the matching InclParam/SimParam setter value (CLIOPT)',
+    'NFAOPS': 'NFA reversal exchanges start/final sets and reverses every edge, trimming is prune-reverse-prune-reverse (NFAOPS)',
+    'UNIONTRANSL': 'a renumbering union re-indexes its operands through translators with disjoint map storage fed by one by-reference counter (UNIONTRANSL)',
+    'ACCRET': 'a by-value builder returns the accumulator it filled, never a fresh object, on every path after the first mutation (ACCRET)',
+    'SCRATCHRESET': 'a scratch container is emptied between handing it over and filling it again (SCRATCHRESET)',
+    'NOTHROW': 'no non-throwing function (noexcept, throw(), destructor) reaches a throw site through in-repo callees (NOTHROW)',
+    'USEDSTATES': 'GetUsedStates inserts parents, children and final states unconditionally and nothing else (USEDSTATES)',
+    'ALPHASRC': "an operation reads the alphabet of an operand, never that of a freshly default-constructed local (ALPHASRC)",
+    'SIBLING': 'sibling functors hold and initialise the same caches and agree on the shape of their shared calls (SIBLING)',
+    'FORWARD': 'facade methods forward every argument, in order, to the same-named core method (FORWARD)',
+    'TUPLEPOS': 'position-wise tuple handling never reorders, deduplicates or drops positions (TUPLEPOS)',
+    'ARITY': 'tuples combined position-wise are guarded by an arity comparison (ARITY)',
+    'NONEMPTY': 'front()/back()/begin() dereferences are dominated by a non-emptiness fact (NONEMPTY)',
+    'STALESIZE': 'a container sized from another container is not used after that container grew (STALESIZE)',
+    'ERASER': 'iterators stored elsewhere are erased when the antichain drops their element (ERASER)',
+}
+
+
+def full_text(pid, rule_names):
+    t = CLAIMS[pid]['text']
+    extra = [RULE_CLAUSES[r] for r in rule_names if r in RULE_CLAUSES and r not in t]
+    if extra:
+        t += ' Further clauses decided: ' + '; '.join(extra) + '.'
+    return t
